@@ -740,8 +740,19 @@ impl Callbacks for Cb {
                         format!("{{\"name\":{},\"fields\":{}}}", jstr(v.name.as_str()), fields)
                     }));
                     let sp = tcx.def_span(did);
+                    // trait bounds on the ADT's own type parameters: [param name, trait path]
+                    let mut bounds: Vec<String> = Vec::new();
+                    for (clause, _) in tcx.predicates_of(did).predicates.iter() {
+                        if let Some(tp) = clause.as_trait_clause() {
+                            let tp = tp.skip_binder();
+                            if let ty::Param(p) = tp.self_ty().kind() {
+                                bounds.push(format!("[{},{}]", jstr(p.name.as_str()), jstr(&cx.cpath(tp.def_id()))));
+                            }
+                        }
+                    }
                     adts.push(format!(
-                        "{{\"path\":{},\"cpath\":{},\"kind\":{},\"public\":{},\"generics\":{},\"variants\":{},\"span\":{},\"mac\":{},\"has_drop\":{}}}",
+                        "{{\"bounds\":[{}],\"path\":{},\"cpath\":{},\"kind\":{},\"public\":{},\"generics\":{},\"variants\":{},\"span\":{},\"mac\":{},\"has_drop\":{}}}",
+                        bounds.join(","),
                         jstr(&cx.path(did)),
                         jstr(&cx.cpath(did)),
                         jstr(&format!("{:?}", tcx.def_kind(did))),
